@@ -16,7 +16,7 @@ using namespace sim;
 
 namespace sh {
 
-enum { MAXOBJ = 3, MAXSLOT = 48, NKEY = 2, NPROTO = 5 };
+enum { MAXOBJ = 3, MAXSLOT = 48, NKEY = 2, NPROTO = 6 };
 enum OpKind {
 	O_APPEND = 1, O_PREPEND = 2, O_INSERT = 3, O_REMOVE = 4, O_EMPTY = 5, O_FOREACH = 6, O_INVOKE = 7,
 	O_ENQ = 8, O_PROCESS = 9, O_PROCESS_ONE = 10, O_PROCESS_IF = 11, O_CLEAR = 12, O_EMPTYQ = 13,
@@ -53,7 +53,9 @@ struct Big : Tracked<seq::T_BIG, false>
 inline std::string strOf(int v) { return "str-" + std::to_string(v) + std::string((size_t)(((v % 4) + 4) % 4) * 8, 'y'); }
 inline long strHash(const std::string & s) { unsigned long h = 3; for(size_t i = 0; i < s.size(); ++i) h = h * 131 + (unsigned char)s[i]; return (long)(h % 1000000007UL); }
 
-typedef eventpp::HeterTuple<void (), void (int), void (const std::string &), void (const Tr &, int), void (Big)> Protos;
+// the last prototype is a trap: everything callable with it is callable with void (int), which is listed earlier, so under the
+// 'first listed prototype' rule no callback is ever bound to it and no invocation ever selects it - not even one with a double
+typedef eventpp::HeterTuple<void (), void (int), void (const std::string &), void (const Tr &, int), void (Big), void (double)> Protos;
 
 struct Call { int cb; int proto; long a, b; };
 
@@ -637,7 +639,8 @@ struct Interp : Sink
 		case 1: B::template forEach<void (int)>(real(o), k, Enum<std::function<void (int)> >(seen)); break;
 		case 2: B::template forEach<void (const std::string &)>(real(o), k, Enum<std::function<void (const std::string &)> >(seen)); break;
 		case 3: B::template forEach<void (const Tr &, int)>(real(o), k, Enum<std::function<void (const Tr &, int)> >(seen)); break;
-		default: B::template forEach<void (Big)>(real(o), k, Enum<std::function<void (Big)> >(seen)); break;
+		case 4: B::template forEach<void (Big)>(real(o), k, Enum<std::function<void (Big)> >(seen)); break;
+		default: break; // forEach<void (double)> itself resolves to the first prototype void (double) can be called with, void (int): nothing separate to enumerate
 		}
 	}
 	template <typename Fn>
